@@ -102,6 +102,34 @@ def run_inproc(argv):
                 pass
 
 
+def run_lib_inproc(model_path, kernel_path):
+    """One analysis through the library entry points with a machine model given by *path* (what tools embedding OSACA do)."""
+    out = {"rc": 0, "out": "", "exc": None}
+    try:
+        from osaca.frontend import Frontend
+        from osaca.parser import get_parser
+        from osaca.semantics import ArchSemantics, KernelDG, MachineModel, reduce_to_section
+
+        mm = MachineModel(path_to_yaml=model_path)
+        isa = mm.get_ISA()
+        parser = get_parser(isa)
+        with open(kernel_path) as f:
+            parsed = parser.parse_file(f.read())
+        kernel = reduce_to_section(parsed, isa)
+        sem = ArchSemantics(mm)
+        sem.add_semantics(kernel)
+        sem.assign_optimal_throughput(kernel)
+        sem.assign_optimal_throughput(kernel)
+        dg = KernelDG(kernel, parser, mm, sem, 10)
+        fe = Frontend(os.path.basename(kernel_path), path_to_yaml=model_path)
+        out["out"] = normalise(fe.full_analysis(kernel, dg, ignore_unknown=True, verbose=False))
+    except Exception as e:  # noqa - reported to the caller, judged by the oracle there
+        import traceback
+
+        out.update(rc=1, exc=type(e).__name__, tb="".join(traceback.format_exception(type(e), e, e.__traceback__))[-1500:])
+    return out
+
+
 # ----------------------------------------------------------------------------------------------------------------
 # fresh processes
 
@@ -387,6 +415,11 @@ def _driver(spec):
                 with open(argv["dst"], "wb") as d:
                     d.write(content)
                 emit(ev="action", what="copy", dst=argv["dst"])
+            elif argv.get("action") == "lib":
+                r = run_lib_inproc(argv["model"], argv["kernel"])
+                emit(ev="report", rc=r["rc"], exc=r["exc"])
+                sys.stdout.write("@@REPORT " + json.dumps(r) + "\n")
+                sys.stdout.flush()
             elif argv.get("action") == "sleep":
                 # time passes in a long-lived process between two analyses
                 time.sleep(float(argv["s"]))
